@@ -528,6 +528,17 @@ def main():
     add("R19.g", "policy-file-added", "bin/newpolicy.sh", "`git add POLICY` between writing the file and `git commit`: %s" % [c.text for c in gadd], okadd,
         "the POLICY file is not added to the index before the commit: in a repository without a tracked POLICY file (`git commit -a` skips untracked files) the number is never recorded, and after a lost link the numbering restarts")
 
+    # what was pulled while compiling is not part of this policy: after the push the work copy is set
+    # back to the commit of this run, so that the next run sees the pulled commits as new.
+    # `HASH=$(git log -n 1 ...)` after the commit and before the pull, `git reset --hard $HASH` after the push.
+    hashc = [c for c in hs if re.match(r"^HASH=\$\(git (log|rev-parse)\b", c.text)]
+    pull = [c for c in hs if c.words[:2] == ["git", "pull"]]
+    reset = [c for c in hs if c.words[:3] == ["git", "reset", "--hard"] and c.words[3:4] == ["$HASH"]]
+    okreset = bool(commit and hashc and push and reset) and commit[0].order < hashc[0].order and (not pull or hashc[0].order < pull[0].order) \
+        and push[0].order < reset[0].order and not reset[0].ctx and not hashc[0].ctx
+    add("R19.g", "pulled-commits-set-aside", "bin/newpolicy.sh", "HASH taken after the commit and before the pull, `git reset --hard $HASH` after the push: %s" % [c.text for c in hashc + reset], okreset,
+        "commits that were pulled while this run compiled stay in the work copy of the new policy: `uptodate` then finds nothing new, and the newest revision is never compiled")
+
     # ---- R19.f
     pn = [c for c in cmds if c.func == "prepare_next"]
     pol = [c for c in cmds if re.match(r"^POLICY=", c.words[0])]
